@@ -83,7 +83,9 @@ def patched_chain(handler, sentinel):
 
 # callers: two ordinary users, the auth service account, and names that are related to it as strings (a proper substring, a
 # proper superstring) - string-membership slips in a guard show only for those
-USERNAMES = ['user1', 'user2', 'auth', 'au', 'author']
+# 'User1' / 'AUTH': distinct accounts that differ from a member / the admin account only by case (MySQL's default collation is
+# case-insensitive: billing_project_users.`user` would match them, `user_cs` must not)
+USERNAMES = ['user1', 'user2', 'auth', 'au', 'author', 'User1', 'AUTH']
 
 
 def guards(R):
@@ -98,6 +100,20 @@ def guards(R):
                 R.encode(f'{rel}:{n.lineno} {n.name}', ast.get_source_segment(t, n))
     sizes = Sizes2(J=1, G=1, U=1, I=1, A=1, T=1, IC=1)
     model.SCHEMA['billing_project_users'] = ([('billing_project', 'bp'), ('user', 'user')], ['user_cs'], {})
+    # collations read from the schema: a VARCHAR column of billing_project_users without an explicit *_cs collation compares
+    # case-insensitively (database default utf8mb4_0900_ai_ci)
+    import re as _re
+    from vt.sqlsym import interp as _interp
+    ddl = loader.read('batch/sql/estimated-current.sql')
+    mt = _re.search(r'CREATE TABLE IF NOT EXISTS `billing_project_users` \((.*?)\) ENGINE', ddl, _re.S)
+    if not mt:
+        raise HarnessError('billing_project_users definition not found in estimated-current.sql')
+    for cm in _re.finditer(r'^\s*`(\w+)`\s+VARCHAR\(\d+\)([^\n]*)$', mt.group(1), _re.M):
+        if not _re.search(r'COLLATE\s+\w+_cs', cm.group(2)):
+            _interp.CI_COLUMNS[cm.group(1)] = ('billing_project_users',)
+    R.assume('collation: `=` on billing_project_users columns without a *_cs collation (read from estimated-current.sql: '
+             f'{sorted(_interp.CI_COLUMNS)}) compares case-folded strings when the column is written qualified with the table name; '
+             'accent-insensitivity and every other table are not modelled')
     routes = list(fe.routes)
     n_routes = 0
     for rd in routes:
